@@ -340,7 +340,11 @@ func c17RedirectPortTable(c *Ctx, pp string) {
 			forEachInstr(f, false, func(_ *ssa.Function, in ssa.Instruction) {
 				if st, ok := in.(*ssa.Store); ok {
 					if tn, fld, _, okf := fieldAddrInfo(st.Addr); okf && fld == "Host" && strings.HasSuffix(tn, "net/url.URL") {
-						if ex, isE := st.Val.(*ssa.Extract); isE && ex.Tuple == ssa.Value(cs.Instr.(*ssa.Call)) && ex.Index == 0 {
+						// the host result itself, or (repair 154) the old host with ":"+port cut off
+						if derivesFrom(st.Val, func(v ssa.Value) bool {
+							ex, isE := v.(*ssa.Extract)
+							return isE && ex.Tuple == ssa.Value(cs.Instr.(*ssa.Call))
+						}) {
 							hasStore = true
 						}
 					}
@@ -361,14 +365,21 @@ func c17RedirectPortTable(c *Ctx, pp string) {
 		if ex, ok := r.(*ssa.Extract); ok && ex.Index == 1 {
 			port = ex
 		}
-		if ex, ok := r.(*ssa.Extract); ok && ex.Index == 0 {
-			for _, rr := range refs(ex) {
-				if st, isS := rr.(*ssa.Store); isS {
-					strip = st
-				}
+	}
+	forEachInstr(fn, false, func(_ *ssa.Function, in ssa.Instruction) {
+		st, isS := in.(*ssa.Store)
+		if !isS {
+			return
+		}
+		if tn, fld, _, okf := fieldAddrInfo(st.Addr); okf && fld == "Host" && strings.HasSuffix(tn, "net/url.URL") {
+			if derivesFrom(st.Val, func(v ssa.Value) bool {
+				ex, isE := v.(*ssa.Extract)
+				return isE && ex.Tuple == ssa.Value(split)
+			}) {
+				strip = st
 			}
 		}
-	}
+	})
 	if strip == nil || port == nil {
 		c.Unresolved("C17.R11", "port result / strip store of the redirect code")
 		return
